@@ -115,3 +115,31 @@ def check_guarduse(ctx, f: FuncInfo, rule: str) -> int:
                     ctx.check(attr in used, rule, f"{f.qualname}: hasattr({obj}, '{attr}')", f, st,
                               f"the probe tests for '{attr}' but the guarded code uses {sorted(used)}: the guard is dead or wrong")
     return n
+
+
+def check_partial_sums(ctx, f, func_node, rule):
+    """R-ACCUM: a partial sum built by an inner loop and then folded into another accumulator at the end
+    of each outer iteration must be re-initialised inside the outer loop, before the inner one
+    (otherwise earlier iterations' contributions are counted again).  Returns the number of instances."""
+    n_inst = 0
+    for L in ast.walk(func_node):
+        if not isinstance(L, (ast.For, ast.While)):
+            continue
+        for i, I in enumerate(L.body):
+            if not isinstance(I, (ast.For, ast.While)):
+                continue
+            acc = {n.target.id for n in ast.walk(I) if isinstance(n, ast.AugAssign) and isinstance(n.target, ast.Name)}
+            for a in sorted(acc):
+                folded = None
+                for st in L.body[i + 1:]:
+                    for n in ast.walk(st):
+                        if isinstance(n, ast.AugAssign) and norm(n.target) != a and any(isinstance(x, ast.Name) and x.id == a for x in ast.walk(n.value)):
+                            folded = n
+                if folded is None:
+                    continue
+                n_inst += 1
+                reset = [st for st in L.body[:i] if isinstance(st, ast.Assign) and any(isinstance(t, ast.Name) and t.id == a for t in st.targets)]
+                ctx.check(bool(reset), rule, f"{f.qualname}: partial sum `{a}` restarts for every outer iteration", f, folded,
+                          f"`{a}` is accumulated by the inner loop and folded into `{norm(folded.target)}` at the end of each outer iteration, "
+                          f"but it is not re-initialised inside the outer loop: earlier iterations are counted again")
+    return n_inst
